@@ -89,7 +89,12 @@ def c01_fuzz_post(pid, tier, seed, ctx):
 
 # ---------------------------------------------------------------------------------------------- C20
 C20_MEM = {"memcpy", "memset", "memmove", "memcmp"}
-C20_RUNTIME = re.compile(r"^(__(u?div|u?mod|mul|ashl|lshr|ashr|neg|cmp|ucmp)[sdt]i[34]$|__(u?divmod)[sdt]i4$|__stack_chk_(fail|guard)$|_GLOBAL_OFFSET_TABLE_$|__(popcount|clz|ctz|bswap|ffs)[sdt]i2$)")
+C20_RUNTIME = re.compile(r"^(__(u?div|u?mod|mul|ashl|lshr|ashr|neg|cmp|ucmp)[sdt]i[34]$|__(u?divmod)[sdt]i4$|__stack_chk_(fail|guard)$|_GLOBAL_OFFSET_TABLE_$|__(popcount|clz|ctz|bswap|ffs)[sdt]i2$"
+                         r"|__aeabi_(u?idiv(mod)?|u?ldivmod|lmul|llsl|llsr|lasr|u?lcmp|mem(cpy|move|set|clr)[48]?|u(read|write)[48])$)")   # integer helpers of libgcc / compiler-rt, ARM EABI names included
+C20_CROSS = [["--target=armv6m-none-eabi"], ["--target=armv4t-none-eabi"], ["--target=thumbv7m-none-eabi"], ["--target=riscv32-unknown-elf", "-march=rv32imc", "-mabi=ilp32"]]
+C20_RUNTIME_SECTIONS = (".init_array", ".fini_array", ".preinit_array", ".ctors", ".dtors")
+C20_PRIVILEGED = {"syscall", "sysenter", "int", "rdtsc", "rdtscp", "rdpmc", "cpuid", "rdmsr", "wrmsr", "in", "inb", "inw", "inl", "out", "outb", "outw", "outl", "insb", "insw", "insl", "outsb", "outsw", "outsl",
+                  "hlt", "cli", "sti", "rdrand", "rdseed", "xgetbv", "lgdt", "lidt", "invlpg", "wbinvd"}
 C20_FREESTANDING = {"stddef.h", "stdint.h", "stdbool.h", "stdarg.h", "limits.h", "float.h", "iso646.h", "stdalign.h", "stdnoreturn.h"}
 C20_OS_MACROS = ["__APPLE__", "__linux__", "__linux", "linux", "_WIN32", "_WIN64", "_WIN16", "__FreeBSD__", "__OpenBSD__", "__NetBSD__", "__sun", "__sun__", "__unix__", "__unix", "unix",
                  "__ANDROID__", "__HAIKU__", "__BEOS__", "__WATCOMC__", "ESP_PLATFORM", "__VMKERNEL__", "__CYGWIN__", "__MINGW32__", "__DragonFly__", "__QNX__", "__MACH__", "VMKERNEL"]
@@ -122,6 +127,10 @@ def c20_configs(repo):
                     continue   # no 32-bit C library headers on this machine: 32-bit settings are freestanding only
                 for testing in (0, 1):
                     cfgs.append(dict(cc=cc, opt=opt, mode=mode, testing=testing, extra=extra, units=[os.path.relpath(u, repo) for u in units]))
+    # bare-metal targets of the kind the embedded ports use (clang's built-in back ends; no C library needed with -ffreestanding): Cortex-M0, ARM7TDMI, Cortex-M3, RV32IMC
+    for extra in C20_CROSS:
+        for opt in ("-O2", "-Os", "-O0"):
+            cfgs.append(dict(cc="clang", opt=opt, mode="freestanding", testing=0, extra=extra, cross=True, units=[os.path.relpath(u, repo) for u in units]))
     return cfgs
 
 
@@ -143,14 +152,15 @@ def c20_build(repo, cfg, outdir, tag):
     if len(objs) == 1:
         return objs[0], None
     out = os.path.join(outdir, tag + "-all.o")
-    r = subprocess.run(["ld", "-r", *(["-m", "elf_i386"] if "-m32" in cfg.get("extra", []) else []), "-o", out, *objs], stdout=subprocess.PIPE, stderr=subprocess.STDOUT, text=True)
+    ld = ["ld.lld", "-r"] if cfg.get("cross") else ["ld", "-r", *(["-m", "elf_i386"] if "-m32" in cfg.get("extra", []) else [])]
+    r = subprocess.run([*ld, "-o", out, *objs], stdout=subprocess.PIPE, stderr=subprocess.STDOUT, text=True)
     if r.returncode:
         return None, "ld -r failed: " + r.stdout[-800:]
     return out, None
 
 
 def c20_undefined(obj):
-    r = subprocess.run(["nm", "-u", obj], stdout=subprocess.PIPE, text=True)
+    r = subprocess.run(["llvm-nm-14", "-u", obj], stdout=subprocess.PIPE, text=True)
     return sorted(l.split()[-1] for l in r.stdout.splitlines() if l.strip())
 
 
@@ -173,6 +183,23 @@ def c20_check_cfg(repo, cfg, outdir, tag, P):
     own = c20_core_defined(repo, cfg, outdir, tag) if len(cfg["units"]) == 1 else set()
     und = [s for s in und if s not in own]
     bad = [s for s in und if s not in P and s not in C20_MEM and not C20_RUNTIME.match(s)]
+    label = "%s %s %s%s, %s" % (cfg["cc"], cfg["opt"] + "".join(" " + x for x in cfg.get("extra", [])), cfg["mode"], " -DLLTD_TESTING" if cfg["testing"] else "", "+".join(os.path.basename(u) for u in cfg["units"]))
+    if not bad and len(cfg["units"]) > 1:
+        # what leaves no symbol behind: start-up sections (the core would rely on a C runtime running its constructors) and, on x86, instructions that reach
+        # the operating system or the hardware directly (system calls, port I/O, time-stamp counter ...)
+        r = subprocess.run(["llvm-objdump-14", "-h", obj], stdout=subprocess.PIPE, stderr=subprocess.DEVNULL, text=True)
+        secs = [x for x in C20_RUNTIME_SECTIONS if re.search(r"\s%s\s" % re.escape(x), r.stdout)]
+        if secs:
+            return und, "core object (%s) carries start-up section(s) %s: it depends on a C runtime that runs constructors, which kernel-mode and bare-metal ports do not have" % (label, ", ".join(secs))
+        if not cfg.get("cross"):
+            r = subprocess.run(["objdump", "-d", "--no-show-raw-insn", obj], stdout=subprocess.PIPE, stderr=subprocess.DEVNULL, text=True)
+            hits = set()
+            for line in r.stdout.splitlines():
+                m = re.match(r"\s*[0-9a-f]+:\s+([a-z0-9]+)", line)
+                if m and m.group(1) in C20_PRIVILEGED:
+                    hits.add(m.group(1))
+            if hits:
+                return und, "core object (%s) contains instruction(s) that reach the system or the hardware without going through the port: %s" % (label, ", ".join(sorted(hits)))
     if bad:
         return und, "core object (%s %s %s%s, %s) references symbol(s) outside the port API: %s" % (
             cfg["cc"], cfg["opt"] + "".join(" " + x for x in cfg.get("extra", [])), cfg["mode"], " -DLLTD_TESTING" if cfg["testing"] else "", "+".join(os.path.basename(u) for u in cfg["units"]), ", ".join(bad))
@@ -269,7 +296,7 @@ def c20_custom(pid, tier, seed, ctx):
         json.dump({"kind": kind, "config": cfg, "message": msg}, open(dst, "w"), indent=1)
         out_viol.append((dst, msg))
     cov = {"evaluations": len(cfgs) + 2, "distinct_nontrivial": len(nontriv), "exhaustive": True,
-           "rule": "complete matrix {gcc, clang} x {-O0,-O2,-Os} x {hosted,-ffreestanding} x {+/-LLTD_TESTING} x {each lltdResponder/*.c alone, all relocatably linked}: nm -u of every object must be a subset of the functions "
+           "rule": "(plus position-independent, general-registers-only, no-FPU, 32-bit, i386, packaging-flag settings and four bare-metal cross targets for the whole core; whole-core objects are also scanned for start-up sections and for instructions that reach the system or hardware directly) complete matrix {gcc, clang} x {-O0,-O2,-Os} x {hosted,-ffreestanding} x {+/-LLTD_TESTING} x {each lltdResponder/*.c alone, all relocatably linked}: nm -u of every object must be a subset of the functions "
                    "declared in lltdPort.h (parsed at run time) plus memcpy/memset/memmove/memcmp plus compiler runtime helpers; freestanding -nostdlib link against a generated stub defining exactly the port API; "
                    "include and OS-macro lint incl. the repository's own script. non-trivial = object with >= 1 undefined symbol; distinct = (compiler, flags, unit) tuple",
            "samples": samples or [{"config": cfgs[0], "undefined": results[0][1]}], "port_functions_declared": len(P), "port_functions_used": len(used),
